@@ -162,6 +162,7 @@ def correspond(ctx, scale):
             mod = f['mk']()
             dist['walks'] += 1
             alphabet = ['train', 'train', 'train-bwd', 'eval', 'eval'] + (['frozen', 'frozen', 'ce-eval', 'ce-frozen'] if f['freeze'] else []) + (['decode'] if f['decode'] else [])
+            alphabet = alphabet + ['bad-eval']
             ops = [rng.choice(alphabet) for _ in range(rng.choice([5, 8, 12]))]
             if wi % 2 == 1:
                 ops = ['train', 'train'] + ops
@@ -169,6 +170,8 @@ def correspond(ctx, scale):
                 ops = ['frozen', 'eval'] + ops      # a fresh (never trained / just loaded) module must be left alone too       # state-changing steps first, so that purity is tested on a "used" module
             if f['kmeans'] and rng.random() < 0.5:
                 ops = [rng.choice(['eval', 'frozen'])] + ops  # the permitted exception: first call initialises
+            if f['kmeans'] and wi % 2 == 0:
+                ops = ['bad-eval'] + ops          # a failing call BEFORE the initialising one
             trained = False
             last_idx = None
             trace = []
@@ -186,6 +189,28 @@ def correspond(ctx, scale):
                             continue
                         f['decode'](mod, last_idx)
                         dist['decode_ops'] += 1
+                        ret = None
+                    elif op == 'bad-eval':
+                        # an evaluation call that FAILS (input of the wrong width / an all-padding mask where k-means has nothing to sample): whether it
+                        # raises or is accepted, it is an evaluation call - and a call that raised must not have committed anything, not even the
+                        # k-means initialisation flag
+                        mod.train(False)
+                        raised_any = False
+                        for bad_kind in ('wrong-width', 'all-padding'):
+                            try:
+                                if bad_kind == 'wrong-width':
+                                    xb = torch.randn(*x.shape[:-1], x.shape[-1] + 1) if not f['image'] else torch.randn(x.shape[0], x.shape[1] + 1, *x.shape[2:])
+                                    mod(xb)
+                                else:
+                                    mod(x, mask=torch.zeros(x.shape[0], x.shape[1], dtype=torch.bool))
+                            except Exception:
+                                raised_any = True
+                                mid = blob(mod)
+                                okb, whyb = same(before, mid)
+                                if not okb:
+                                    failures.append({'key': f'{f["name"]}:bad-eval:{bad_kind}:failed-call-changed-state', 'what': f'{f["name"]}: an evaluation call that raised ({bad_kind}) changed the state: {whyb} (history {trace})',
+                                                     'case': dict(name=f['name'], ops=trace)})
+                        dist['failing_eval_calls'] = dist.get('failing_eval_calls', 0) + int(raised_any)
                         ret = None
                     elif op == 'train-bwd':
                         # an ordinary training step of the CALLER: forward, backward of the returned loss - gradients are left on the parameters
@@ -268,7 +293,7 @@ def correspond(ctx, scale):
                         meta.append(dict(name=f['name'], op=op, ops=list(trace)))
                         dist['model_cases'] += 1
                 # repeat: same input, same state -> same result (deterministic configurations; eval always)
-                if op not in ('decode', 'ce-eval', 'ce-frozen') and (op == 'eval' or not f['stochastic']) and not first_init:
+                if op not in ('decode', 'ce-eval', 'ce-frozen', 'bad-eval') and (op == 'eval' or not f['stochastic']) and not first_init:
                     try:
                         r1 = flat_out(ret)
                         r2 = flat_out(call(f, mod, x, op, seed + 1))
